@@ -862,6 +862,73 @@ type scriptedResettable struct{ scriptedCompressor }
 func (f *scriptedResettable) Reset(w io.Writer) { f.w = w; f.suffix = f.script.take() }
 
 // a Writer reused through Reset must judge every message's tail on its own
+// subRefusing: ONE write of the destination is refused (zero bytes taken, an error returned) and every other one
+// accepted, at every write index of a Write / Flush / Write / Flush / Close history: either some call (or Err) reports
+// an error, or what reached the destination, with 00 00 ff ff appended, inflates to the message. A refused write that
+// nobody mentions is a corrupt message the application believes it has sent.
+func subRefusing() mon.Sub {
+	return mon.Sub{
+		Name: "refusing-destination", Required: true,
+		N: func(t string) int {
+			if t == "thorough" {
+				return 6000
+			}
+			return 300
+		},
+		Do: func(c *mon.C) {
+			class := []int{2, 3, 4, 6, 9, 11}[c.I%6]
+			msg := payload(c, class)
+			level := []int{-2, 0, 1, 6, 9}[c.I/6%5]
+			parts := splitRandom(c, msg, 4)
+			run := func(failAt int, fk error) (rec *xport.Rec, sawErr bool, trace []string) {
+				rec = xport.NewRec()
+				rec.FailAt, rec.ShortN, rec.Err = failAt, 0, fk
+				w := wsflate.NewWriter(rec, compressorCtor(level, c.I%2 == 0, c.I%3 != 0))
+				note := func(op string, err error) {
+					trace = append(trace, fmt.Sprintf("%s -> %v", op, err))
+					if err != nil {
+						sawErr = true
+					}
+				}
+				for i, p := range parts {
+					_, err := w.Write(p)
+					note(fmt.Sprintf("Write(%d)", len(p)), err)
+					if i%2 == 0 || i == len(parts)-1 {
+						note("Flush", w.Flush())
+					}
+				}
+				if len(parts) == 0 {
+					note("Flush", w.Flush())
+				}
+				if c.I%4 != 3 {
+					note("Close", w.Close())
+				}
+				note("Err", w.Err())
+				return
+			}
+			healthy, herr, _ := run(-1, nil)
+			if herr || len(healthy.Calls) == 0 {
+				return
+			}
+			for j := 0; j < len(healthy.Calls); j++ {
+				c.Count(1)
+				fk := xport.FaultKinds[(c.I+j)%len(xport.FaultKinds)]
+				rec, sawErr, trace := run(j, fk.Err)
+				if len(rec.Calls) <= j || sawErr {
+					continue
+				}
+				out, ierr := io.ReadAll(flate.NewReader(bytes.NewReader(append(append([]byte(nil), rec.Bytes()...), 0x00, 0x00, 0xff, 0xff, 0x01, 0x00, 0x00, 0xff, 0xff))))
+				if ierr != nil || !bytes.Equal(out, msg) {
+					c.Fail("refused-write/swallowed", fmt.Sprintf("destination write %d of %d was refused (%s) but Write, Flush, Close and Err all report success, and what reached the destination does not inflate to the message (err=%v, %d of %d bytes)", j, len(healthy.Calls), fk.Name, ierr, len(out), len(msg)),
+						map[string]interface{}{"payload_class": class, "level": level, "ops": trace, "refused_destination_write": j, "error_kind": fk.Name})
+					return
+				}
+			}
+			c.Classf("refusing|class=%d|level=%d|writes=%d", class, level, len(healthy.Calls))
+		},
+	}
+}
+
 func subTailReuse() mon.Sub {
 	bad := [][]byte{nil, {0}, {0, 0}, {0, 0, 0xff}, {0xff}, {0xff, 0xff}, {0, 0xff, 0xff}, {0, 0, 0xff, 0xfe}}
 	return mon.Sub{
@@ -944,6 +1011,6 @@ func main() {
 				os.Exit(3)
 			}
 		},
-		Subs: []mon.Sub{subWriterVsZlib(), subZlibVsReader(), subFrames(), subTailLogic(), subTailReuse()},
+		Subs: []mon.Sub{subWriterVsZlib(), subZlibVsReader(), subFrames(), subTailLogic(), subTailReuse(), subRefusing()},
 	})
 }
